@@ -362,8 +362,15 @@ def run_modes(model, tier):
     files, dirs, scen = mode_scenarios(tier)
     STDIN = b'# from stdin\nimport json\nprint(json)\n'
     results = []
-    for (mlabel, paths, output, in_place, targets, vec, force) in scen:
+    # every scenario as it is, and - for runs over several files with one kind of answer - once more with byte-identical files (anything the
+    # run remembers about one file must not leak into the next)
+    scen = [x + (False,) for x in scen] + [x + (True,) for x in scen if len(x[4]) >= 2 and len(set(x[5])) == 1 and x[5][0] in 'slen' and '<stdin>' not in x[4]]
+    for (mlabel, paths, output, in_place, targets, vec, force, identical) in scen:
         content = dict(files)
+        if identical:
+            mlabel += ', byte-identical files'
+            for t in targets:
+                content[t] = b'SEP = 1\nPAD = 22\n'
         answers = {}
         unreadable = set()
         texts = {}
@@ -377,6 +384,8 @@ def run_modes(model, tier):
                 texts[t] = ('E' * len(source))
             elif c == 'n':
                 texts[t] = 'é' * (len(source) // 2 + 1)      # fewer characters than the source has bytes, more bytes
+            if identical:
+                texts[t] = texts[targets[0]]
             if c in 'slen':
                 answers[source] = ('ok', texts[t])
             elif c == 'x':
